@@ -13,6 +13,22 @@ def variants_with(repo, enum, field):
     return [v["name"] for v in e.get("variants", []) if any(str(f.get("name")) == field for f in v.get("fields", []))]
 
 
+def _helpers(repo, fn, enum):
+    """functions of fn's module that fn calls (by name or as a method) and that match over `enum` themselves: an iterator / accessor
+    extracted from fn does part of fn's projection"""
+    out = []
+    called = set()
+    for x in A.walk(fn.body):
+        if x["k"] == "MethodCall":
+            called.add(x["method"])
+        elif x["k"] == "Call" and x["func"]["k"] == "Path":
+            called.add(x["func"]["path"].split("::")[-1])
+    for h in repo.fns_in(fn.module):
+        if h is not fn and h.name in called and h.name != fn.name and T.find_enum_matches(repo, h, enum, 2):
+            out.append(h)
+    return out
+
+
 def fieldcover(repo, res, fq, enum, field, sink, rule="FIELDCOVER", min_matches=1):
     fn = repo.fn(fq)
     if fn is None:
@@ -22,9 +38,21 @@ def fieldcover(repo, res, fq, enum, field, sink, rule="FIELDCOVER", min_matches=
     if not carriers:
         res.undecided(rule, f"{rule}:{fq}", f"no variant of {enum} declares `{field}`")
         return 0
-    envs = A.collect_envs(fn)
     n = 0
     mi = 0
+    for f in [fn] + _helpers(repo, fn, enum):
+        # in a helper the field leaves through the helper's value (it is fn that collects it)
+        a, b = _cover_one(repo, res, f, fq, enum, field, sink if f is fn else "value", carriers, rule, mi)
+        n += a
+        mi = b
+    if mi < min_matches:
+        res.undecided(rule, f"{rule}:{fq}:matches", f"{mi} matches over {enum} found, {min_matches} confirmed")
+    return n
+
+
+def _cover_one(repo, res, fn, fq, enum, field, sink, carriers, rule, mi):
+    envs = A.collect_envs(fn)
+    n = 0
     for m in A.walk(fn.body):
         if m["k"] != "Match":
             continue
@@ -65,6 +93,4 @@ def fieldcover(repo, res, fq, enum, field, sink, rule="FIELDCOVER", min_matches=
         for v in sorted(missing):
             n += 1
             res.bad(rule, f"{rule}:{fq}:match#{mi}:{v}.{field}", f"{enum}::{v} carries `{field}` but no arm of this match names it (wildcard): its `{field}` is lost", f"{fn.file}:{m['l']}")
-    if mi < min_matches:
-        res.undecided(rule, f"{rule}:{fq}:matches", f"{mi} matches over {enum} found, {min_matches} confirmed")
-    return n
+    return n, mi
